@@ -155,3 +155,63 @@ template <class T, class Px, bool DefaultMax> static void run_gray(vh::Ctx& ctx,
     }
 }
 
+
+// Source and destination views with DIFFERENT channel types (the functions are templates over both views): the documented
+// comparison is between the SOURCE sample and the threshold (which has the destination's channel type); "no change" stores
+// the source sample converted to the destination channel type.
+template <class TS, class PxS, class TD, class PxD> static void run_gray_mixed(vh::Ctx& ctx, const char* tn)
+{
+    const std::vector<TS> vals = Sets<TS>::values(false);
+    const std::vector<TD> ths = Sets<TD>::thresholds(), maxes = Sets<TD>::maxes();
+    const int n = int(vals.size());
+    const int w = 16, h = (n + w - 1) / w;
+    Buf<PxS> src(w, h); Buf<PxD> dst(w, h);
+    auto swv = src.view(); auto sv = src.cview(); auto dv = dst.view();
+    for (int i = 0; i < w * h; ++i) swv(i % w, i / w)[0] = vals[i < n ? i : 0];
+    for (TD t : ths)
+    {
+        if (!ctx.take()) continue;
+        ctx.cur = vh::S() << "thr/" << tn << "/t=" << vstr(t);
+        for (int mode = 0; mode < NMODES; ++mode)
+        {
+            const bool explicit_max = mode == BIN_REG_MAX || mode == BIN_INV_MAX;
+            std::vector<TD> ms = explicit_max ? maxes : std::vector<TD>{(std::numeric_limits<TD>::max)()};
+            for (TD m : ms)
+            {
+                dst.fill_bytes(0xA5);
+                call(mode, sv, dv, t, m);
+                ++ctx.evaluations;
+                long bad = 0, above = 0, narrowed_differs = 0; std::string first;
+                for (int i = 0; i < w * h; ++i)
+                {
+                    TS v = vals[i < n ? i : 0];
+                    const bool gt = (long long)v > (long long)t;
+                    const TD keep = static_cast<TD>(v);
+                    TD exp;
+                    switch (mode)
+                    {
+                    case BIN_REG: case BIN_REG_MAX: exp = gt ? m : TD(0); break;
+                    case BIN_INV: case BIN_INV_MAX: exp = gt ? TD(0) : m; break;
+                    case TR_T_REG: exp = gt ? t : keep; break;
+                    case TR_T_INV: exp = !gt ? t : keep; break;
+                    case TR_Z_REG: exp = !gt ? TD(0) : keep; break;
+                    default: exp = gt ? TD(0) : keep; break;
+                    }
+                    TD got = dv(i % w, i / w)[0];
+                    if (gt) ++above;
+                    if (((long long)keep > (long long)t) != gt) ++narrowed_differs;
+                    if (!same(got, exp)) { if (!bad) first = vh::S() << "source value " << vstr(v) << " -> " << vstr(got) << " expected " << vstr(exp); ++bad; }
+                }
+                ctx.counters["value_threshold_pairs"] += w * h;
+                if (above > 0 && above < w * h) ++ctx.nontrivial;
+                std::string id = vh::S() << "thr/" << tn << "/" << MODE_NAME[mode] << "/t=" << vstr(t) << (explicit_max ? std::string("/M=") + vstr(m) : std::string());
+                if (bad) ctx.fail(id, std::string("threshold!=documented-comparison:") + (mode < TR_T_REG ? "binary" : "truncate"), vh::S() << bad << " wrong pixel(s); first: " << first);
+                if (!dst.g.intact()) ctx.fail(id, "write-outside-destination");
+                ctx.san_take(id);
+                ++ctx.witness[std::string("thr_mixed_") + tn];
+                if (narrowed_differs) ++ctx.witness["thr_mixed_narrowing_changes_the_comparison"];
+            }
+        }
+        if (ctx.timed_out()) return;
+    }
+}
